@@ -48,7 +48,7 @@ def check(ctx):
     return objlib.run(ctx, QUICK, THOROUGH, RULE + "; stream roaobj: Roas::create_updates/mode/create_renewal/"
                       "apply_updates called directly (krill::verif::roa_objects) on an evolving Roas value with "
                       "route sets, claimed resources and both thresholds varied per op",
-                      ASSUME, extra_bins=["roaobj"], extra=roaobj)
+                      ASSUME, extra_bins=["roaobj"], extra_stream=roaobj)
 
 
 def replay(ctx, data):
